@@ -82,8 +82,10 @@ def configurations(k):
     for ob in S.CG_OBJECTIVES:
         for sw in ALL_SWITCHES:
             out.append(("cg", {"objective": ob, "switches": sw}))
-    for a in DIFF_ONLY:
+    for a in ("ckk", "snp", "rnp"):
         out.append((a, None))
+    if k == 2:
+        out.append(("cbldm", None))          # two bins only, by contract; default (unbounded) cardinality difference
     return out
 
 
